@@ -95,9 +95,16 @@ impl Thread {
                         );
 
                         pointer.container = thread_pointer_result.container();
+                        // -1 stands for the container itself; anything beyond its content
+                        // (or outside i32, which a cast would wrap around) is not a position
+                        let content_len = pointer
+                            .container
+                            .as_ref()
+                            .map_or(0, |c| c.content.len() as i64);
                         let pointer_index = j_element_obj
                             .get("idx")
                             .and_then(|i| i.as_i64())
+                            .filter(|i| (-1..=content_len).contains(i))
                             .ok_or(StoryError::BadJson("Invalid pointer index".to_owned()))?
                             as i32;
                         pointer.index = pointer_index;
